@@ -1,5 +1,6 @@
 import Driver.Core
 import RrModel.Spec.C02
+import RrModel.Go.UrlEscape
 /- streams: urlsplit, outurl, kf.C02-a  (C02) -/
 open Go Model Proto
 
@@ -14,7 +15,12 @@ def hUrlSplit : Handler := fun impl => do
       -- Go's deeper validation (port syntax, host bytes, %-escapes) rejected what splits fine:
       -- one-directional comparison, counted under its own label
       return { model := "err", label := "deep-validation-error" }
-    let auth := u.authority.getD []
+    let auth0 := u.authority.getD []
+    -- the Go side prints "*@host" when Userinfo.String() re-escaped the userinfo (never read by rrrouter)
+    let starred := match impl with
+      | _ :: _ :: a :: _ => a.startsWith "x2a40"
+      | _ => false
+    let auth := if starred then b!"*@" ++ Go.UrlEsc.hostOfAuthority auth0 else auth0
     let label := if u.authority.isSome then (if u.rawQuery ≠ [] then "authority+query" else "authority")
                  else if u.opaq ≠ [] then "opaque" else "path-only"
     return { model := s!"ok {toHex u.scheme} {toHex auth} {toHex u.rawQuery} {if u.forceQuery then 1 else 0} {toHex u.opaq}",
